@@ -593,7 +593,7 @@ func cmdRun(prop string, args []string) int {
 			}
 			w := &worker{id: id, bin: wbin, env: env, scratch: filepath.Join(scratch, fmt.Sprintf("w%d", id))}
 			os.MkdirAll(w.scratch, 0755)
-			if meta.NonRootFraction > 0 && id >= nw-int(float64(nw)*meta.NonRootFraction+0.999) && wbin == bin {
+			if meta.NonRootFraction > 0 && os.Getuid() == 0 && id >= nw-int(float64(nw)*meta.NonRootFraction+0.999) && wbin == bin {
 				// unprivileged worker: runs as nobody in a world-writable scratch directory
 				os.Chmod(scratch, 0755)
 				os.Chmod(filepath.Dir(scratch), 0755)
